@@ -41,6 +41,7 @@ RULE = ("One evaluation = one simulated transfer in which the sender's offer "
 RULE += (' Names include non-NFC forms and compatibility look-alikes of existing files; in 2/5 of file runs somebody else creates the announced destination (directory or file) while the transfer is under way.')
 RULE += (' A quarter of the archives begin with ordered chains of symbolic-link members (depth 1..3) and a file named through them; any member may be a link.')
 RULE += (' A sixth of the file offers carry a second (directory) entry with another name and a valid archive as payload.')
+RULE += (" The destination may pre-exist as a symbolic link to a file kept elsewhere in the receiver's tree.")
 LEVEL_TEXT = ("Seeded exploration over generated inputs/configurations. "
               "allowed := the announced destination (cwd/basename, the "
               "--output-file target, or target-dir/basename) and, for "
